@@ -215,7 +215,8 @@ def run_two_requests(case) -> dict:
     import dpapi_ng._rpc as rpc
     from dpapi_ng._gkdi import GetKey
 
-    _, ctxname, fl, bit = case
+    _, ctxname, fl, bit = case[:4]
+    mode = case[4] if len(case) > 4 else "flip-then-forge"  # "replay-prev": first reply untouched, the second one is the first one again
     ctx, hs = CTXS[ctxname]
     world = W.World(bit)
     world.clock.set_filetime(FT)
@@ -249,6 +250,12 @@ def run_two_requests(case) -> dict:
         if len(data) < 24 or data[2] != rpce.RESPONSE:
             return None
         state["n"] += 1
+        if mode == "replay-prev":
+            if state["n"] == 1:
+                state["first_reply"] = bytes(data)
+                return None
+            state["replayed"] = True
+            return state["first_reply"]
         if state["n"] == 1:
             b = bytearray(data)
             off = 24 * 8 + bit % max(8, (len(data) - 24 - 8 - 16) * 8)
@@ -289,7 +296,15 @@ def run_two_requests(case) -> dict:
         return common.violation("C16", "two-requests", fl, cond, "", "", f"{detail}; ctx={ctxname} bit={bit} first={res['first'] and res['first'][0]} outcome={out.brief()} {out.exc!r}")
 
     reqs = [e for e in dc.gkdi_server.log if e.get("event") == "request"]
-    if res["first"] and res["first"][0] == "ok":
+    if mode == "replay-prev":
+        probes["alter_tworeq_replay"] = 1
+        if not res["first"] or res["first"][0] != "ok":
+            viol = V("authentic-reply-rejected", f"the unaltered reply to the first request was not accepted: {res['first'] and res['first'][1]!r}")
+        elif out.kind == "ok" and state.get("replayed"):
+            viol = V("replayed-reply-accepted", "the sealed reply to the FIRST request, delivered again as the reply to the second request, was returned to the caller")
+        elif out.kind == "raise":
+            probes["rejected"] = 1
+    elif res["first"] and res["first"][0] == "ok":
         viol = V("altered-reply-accepted", "a sealed reply with a flipped body bit was returned to the caller")
     elif len(reqs) >= 2 and not reqs[1].get("stub_padded") and reqs[1]["pdu"]["auth"] is None:
         viol = V("second-request-in-clear", "after rejecting a reply the client sent its next request on the authenticated connection without sealing it")
@@ -380,8 +395,93 @@ def run_raw(case) -> dict:
             "vtime_ns": world.stats.get("vtime_ns", 0)}
 
 
+def run_threads(case) -> dict:
+    """["threads", seed, policy]: two caller threads of one process protect at the same time (sync API).  The adversary owns the
+    unauthenticated hop of the second lookup: it answers that ept_map request with a well-formed cleartext Response carrying a
+    GetKey reply built from its own root key.  Whatever the interleaving (simworld.threads; pre-emptions biased to the instants right
+    after a socket read or an unwrap), each call raises or returns a blob under the domain's key."""
+    _, seed, policy = case
+    ctxname = ("stub-hs", "stub-nohs")[seed % 2]
+    plan = base_plan(ctxname, "p256", "protect", "sync")
+    op = dict(plan["ops"][0], fl="thread", group=1)
+    plan["ops"] = [dict(op), dict(op), dict(op)][: 2 + seed % 2]
+    plan["seed"] = seed
+    plan["threads"] = policy
+    plan["delivery"] = (None, {"mode": "rand", "seed": seed & 0xFFFF, "bias": "header"})[(seed // 2) % 2]
+    state: dict = {"epm": []}
+
+    def tamper(conn, idx, data):
+        if conn.port != 135 or len(data) < 24 or data[2] != rpce.RESPONSE:
+            return None
+        if conn.cid not in state["epm"]:
+            state["epm"].append(conn.cid)
+        if state["epm"].index(conn.cid) == 0:
+            return None  # the first lookup is left alone so that its caller reaches the key service
+        adv_world = W.World(0)
+        adv_world.clock = conn.world.clock
+        adv = refdc.RefDC(adv_world, [adv_root_key(plan["root_keys"][0])], caller_sids={SID})
+        hr, env = adv.answer(dtyp.target_sd(SID), None, -1, -1, -1, {})
+        state["applied"] = True
+        return rpce.build_response(rpce.ndr64_getkey_response(env, hr), ctx_id=0, call_id=struct.unpack("<I", data[12:16])[0])
+
+    class Tampers(dict):
+        def get(self, k, d=None):
+            return tamper
+
+    import checks.plan as planmod
+
+    orig_world = W.World
+
+    class AdvWorld(orig_world):
+        def __init__(self, *a, **kw):
+            super().__init__(*a, **kw)
+            self.tampers = Tampers()
+
+    planmod.W.World = AdvWorld
+    try:
+        tr = P.execute_plan(plan)
+    finally:
+        planmod.W.World = orig_world
+    rk = tr.root_keys[0]
+    adv_rk = adv_root_key(plan["root_keys"][0])
+    viol = None
+    probes = {"alter_threads": 1, "thread_overlap": tr.world.stats.get("toverlap", 0), "epm_reply_replaced": int(bool(state.get("applied")))}
+    for ot in tr.ops:
+        out = ot.outcome
+        if out.kind == "raise":
+            probes["rejected"] = 1
+            continue
+        if out.kind == "blocks":
+            probes["blocked_waiting_for_more_bytes"] = 1  # no result is produced, nothing is accepted (cf. the single-caller cases)
+            continue
+        if out.kind != "ok":
+            viol = common.violation("C16", "threads", "thread", out.kind, "", "", f"op {ot.idx}: call neither returned nor raised: {out.exc!r}")
+            break
+        try:
+            pt = cms.unprotect(out.value, rk)
+        except Exception:  # noqa: BLE001
+            pt = None
+        if pt == ot.plaintext:
+            probes["authentic_result"] = 1
+            continue
+        try:
+            apt = cms.unprotect(out.value, adv_rk)
+        except Exception:  # noqa: BLE001
+            apt = None
+        cond = "adversary-key-used" if apt == ot.plaintext else "unauthentic-result"
+        viol = common.violation("C16", "threads", "thread", cond, "protect", "",
+                                f"op {ot.idx}: protect returned a blob that the domain's key does not open"
+                                f"{' but the adversary can decrypt' if apt == ot.plaintext else ''} while another thread's unauthenticated lookup was answered by the adversary; "
+                                f"ctx={ctxname} pre-emptions={tr.world.stats.get('tswitch', 0)}")
+        break
+    return {"viol": viol, "digest": tr.world.digest(), "key": common.key_hash(case), "sched_key": common.key_hash(tr.schedule) if tr.schedule else None,
+            "fired": {"threads": 1, "thread_preemptions": tr.world.stats.get("tswitch", 0)}, "probes": probes, "vtime_ns": 0, "_scripts": tr.thread_scripts}
+
+
 def run(case) -> dict:
     """case: [ctxname, rkname, opname, flavour, alter]"""
+    if case[0] == "threads":
+        return run_threads(case)
     if case[0] == "tworeq":
         return run_two_requests(case)
     if case[0] == "raw":
@@ -500,13 +600,15 @@ class C16(common.Check):
             "of an earlier connection replayed; handshake man-in-the-middle (security trailers removed from bind_ack / alter_context_resp, every "
             "later server PDU replaced by the adversary's cleartext Response); PFC_LAST_FRAG cleared on the sealed reply and a cleartext "
             "continuation fragment appended; two requests on one connection through the raw client (first reply bit-flipped, second replaced by "
-            "a cleartext forgery). Non-trivial = every case (each alters the reply); distinct = distinct tuple.")
+            "a cleartext forgery; first reply untouched, second replaced by the first one again); two or three caller threads protecting at the "
+            "same time (sync API, deterministic thread scheduler biased to the instants after socket reads and unwraps) while the adversary answers "
+            "the unauthenticated endpoint-mapper request of the later lookups with a cleartext Response carrying its own GetKey reply. Non-trivial = every case (each alters the reply); distinct = distinct tuple.")
     components = {"client": "real (public API, RPC client, AuthenticationProvider)", "security context": "real pyspnego NTLM / Negotiate->NTLM (initiator and acceptor) and StubCtx (stub)",
                   "DC": "model (RefDC)", "adversary": "simulator component on the reply path, no access to the session key",
                   "transport / entropy / clock": "simulated"}
     assumptions = ["outcome-based: a correct client may reject earlier or later or tolerate a change in an unprotected field, as long as the result equals the authentic one",
                    "pyspnego NTLM signs data_readonly buffers too, so 'header signing off' is only observable with StubCtx"]
-    required_fired = ("alter_strip", "alter_flip", "alter_lenfix", "alter_subst", "alter_replay", "alter_mitm-handshake", "alter_connect-flap", "alter_fragment", "alter_tworeq", "raw_request_level", "rejected")
+    required_fired = ("alter_strip", "alter_flip", "alter_lenfix", "alter_subst", "alter_replay", "alter_mitm-handshake", "alter_connect-flap", "alter_fragment", "alter_tworeq", "alter_tworeq_replay", "alter_threads", "thread_overlap", "epm_reply_replaced", "raw_request_level", "rejected")
 
     def exhaustive(self, tier):
         return tier == "thorough"
@@ -560,6 +662,8 @@ class C16(common.Check):
             for fl in ("sync", "async"):
                 for bit in range(0, 64 if tier == "quick" else 2000, 7):
                     out.append(["tworeq", ctxname, fl, bit])
+                for k in range(4 if tier == "quick" else 40):
+                    out.append(["tworeq", ctxname, fl, k, "replay-prev"])
                 for al in (["fragment", "seed", "last-only"], ["fragment", "pub", "first-last"], ["strip", "seed", "plain"], ["strip", "seed", "zero-sig"],
                            ["strip", "pub", "level-none"], ["subst", 1], ["lenfix", "pad_length", 3], ["lenfix", "auth_len", 8]):
                     out.append(["raw", ctxname, fl, al])
@@ -567,12 +671,22 @@ class C16(common.Check):
             for fl in ("sync", "async"):
                 out.append([ctxname, "dh", "protect", fl, ["strip", "seed", "plain"]])
                 out.append([ctxname, "dh", "protect", fl, ["strip", "pub", "plain"]])
+        from checks import threadpure
+
+        rngt = prng.stream(seed, "C16", "threads")
+        for k in range(400 if tier == "quick" else 20000):
+            out.append(["threads", rngt.getrandbits(30), threadpure.policy_for(k * 4 + 3) if k % 2 else threadpure.policy_for(k)])
         return out
 
     def run_case(self, case):
         return run(case)
 
     def shrink(self, case):
+        if case[0] == "threads":
+            from checks import threadpure
+
+            yield from threadpure.shrinks(case, 2, None, lambda c: {"_script": (run_threads(c).get("_scripts") or {}).get("0")})
+            return
         if case[0] in ("tworeq", "raw"):
             return
         ctxname, rkname, opname, fl, alter = case
@@ -584,6 +698,8 @@ class C16(common.Check):
             yield [ctxname, "p256", opname, fl, alter]
 
     def sample_repr(self, case, res):
+        if case[0] == "threads":
+            return dict(zip(("kind", "seed", "thread_policy"), case))
         if case[0] == "tworeq":
             return dict(zip(("kind", "ctx", "flavour", "flipped_bit_of_first_reply"), case))
         if case[0] == "raw":
